@@ -223,6 +223,10 @@ func checkRequires(p *Program, r *Result, e boundsEntry) string {
 					okg = true
 				}
 			}
+			if !okg && parts[2] == "unwritten" && parts[3] == "65536" {
+				// the same fact as a consequence of the arithmetic in force at the call
+				okg, _ = flushGuardByArithmetic(p, fn, c)
+			}
 			if !okg {
 				return "the call of " + parts[1] + " in " + parts[0] + " is not guarded by len(recv." + parts[2] + ") == " + parts[3]
 			}
